@@ -534,6 +534,9 @@ class MapEncoder:
                     a1 = a1[1] if a1[0] == "ref" else a1
                 if a1 == src:
                     insert_bb = bb
+                    if setl is None:
+                        lv = pv._borrowed_lvalue(t["args"][0], bb)
+                        setl = lv[1] if lv[0] == "local" else None
         style = None
         for o in outcomes(fn, pv):
             if o["kind"] == "err" and o["inner"][0] == "aggr" and o["inner"][2] == "DuplicateMapKey":
@@ -542,6 +545,9 @@ class MapEncoder:
                     if nb and is_call(nb[0], SET_CONTAINS) and nb[1] is True and nb[0][3][1] == contains_bb:
                         style = "contains-then-insert"
                     if nb and is_call(nb[0], SET_INSERT) and nb[1] is False and nb[0][3][1] == insert_bb:
+                        style = "insert-returns-false"
+                    if nb and nb[0][0] == "unop" and nb[0][1] == "Not" and is_call(nb[0][2], SET_INSERT) and nb[1] is True \
+                            and nb[0][2][3][1] == insert_bb:
                         style = "insert-returns-false"
         if style == "contains-then-insert":
             ok = insert_bb is not None and fn.cfg.dominates(contains_bb, ent["bb"]) and fn.cfg.dominates(insert_bb, ent["bb"])
